@@ -3,6 +3,7 @@ package ent
 import (
 	"context"
 	"fmt"
+	"maps"
 	"time"
 
 	"entgo.io/ent/dialect/sql"
@@ -296,7 +297,7 @@ func mapEntToDefTask(created *gen.Task) def.Task {
 	return def.Task{
 		Id:           created.ID,
 		WorkId:       created.WorkID,
-		Param:        created.Param,
+		Param:        maps.Clone(created.Param),
 		Priority:     created.Priority,
 		State:        def.State(created.State),
 		ScheduledAt:  created.ScheduledAt,
@@ -306,7 +307,7 @@ func mapEntToDefTask(created *gen.Task) def.Task {
 		DispatchedAt: mapPointerToOption(created.DispatchedAt),
 		DoneAt:       mapPointerToOption(created.DoneAt),
 		Err:          created.Err,
-		Meta:         created.Meta,
+		Meta:         maps.Clone(created.Meta),
 	}
 }
 
